@@ -193,35 +193,37 @@ func vsReplayEdgeCover(run *core.Run, prop string, crash bool) {
 	if run.Thorough() {
 		gtags = "abcd"
 	}
-	ghostCfg := vsCfgG(2, 1, gtags, true, true, true, true, true, true, "VIEW GenView\nACTION_CONSTRAINT EmitGhostEdge\n")
-	_, gst := vsGenerateAndReplayCfg(run, ghostCfg, nil, func(b *vsBehaviour, n int64, scratch string) {
-		conc := vsConcs[int((n+run.Seed)%int64(len(vsConcs)))]
-		for _, tall := range []int{0, 365} {
-			skip := false
+	var gst *vsGenStats
+	for _, pass := range []struct {
+		constraint string
+		tall       int
+		kind       string
+	}{
+		{"EmitGhostEdge", 0, "ldb-reopened-after-rollback"},
+		// tall: only views fill the cache (a refused commit asks for the view of the top filler, not of the far commit)
+		{"EmitGhostEdgeViewsOnly", 365, "ldb-tall-reopened-after-rollback"},
+	} {
+		pass := pass
+		ghostCfg := vsCfgG(2, 1, gtags, true, true, true, true, true, true, "VIEW GenView\nACTION_CONSTRAINT "+pass.constraint+"\n")
+		_, gst = vsGenerateAndReplayCfg(run, ghostCfg, nil, func(b *vsBehaviour, n int64, scratch string) {
+			conc := vsConcs[int((n+run.Seed)%int64(len(vsConcs)))]
 			for _, s := range b.Steps {
-				if s.A == "Restart" {
-					skip = true
+				if s.A == "Restart" && pass.tall > 0 {
+					return
 				}
 			}
-			if skip && tall > 0 {
-				continue
-			}
-			out, err := vsReplayT("ldb", tall, conc, b, scratch)
+			out, err := vsReplayT("ldb", pass.tall, conc, b, scratch)
 			if err != nil {
 				core.Fatal("ghost replay infrastructure: %v", err)
 			}
-			kind := "ldb-reopened-after-rollback"
-			if tall > 0 {
-				kind = "ldb-tall-reopened-after-rollback"
-			}
-			run.Count("replayed_behaviours_"+kind, 1)
-			vsReportMismatches(run, prop, kind, conc, b, out.Mismatches)
-		}
-	})
+			run.Count("replayed_behaviours_"+pass.kind, 1)
+			vsReportMismatches(run, prop, pass.kind, conc, b, out.Mismatches)
+		})
+		run.Traces += gst.Behaviours
+	}
 	if gst.Behaviours == 0 {
 		core.Fatal("vacuity: no transition re-requests a view cached before a rollback")
 	}
-	run.Traces += gst.Behaviours
 	run.Traces += walks
 	run.Traces += st.Behaviours
 	run.Set("edge_cover", fmt.Sprintf("VStore Gen MaxH=2 views=1: %d abstract states, %d transitions, one behaviour replayed per transition", res.Distinct, res.Generated))
